@@ -611,6 +611,30 @@ func isLoadOfFieldIdx(v ssa.Value, idx int) (*ssa.FieldAddr, bool) {
 
 // ---- C14-R6: a subscription is attributed to the peer it was created for ----
 
+// ruleNoTransparentRetry implements C05-R7 (= C14-R7): the inter-node write (ScheduleMessage → Append on the hosting
+// node) is not idempotent, so nothing may repeat it behind the distributor's back: no function of the module uses a gRPC
+// retry interceptor. A lost reply or a slow peer would otherwise append the same publish twice to the peer's log.
+func (c *Ctx) ruleNoTransparentRetry(id string) {
+	ru := c.R.Rule(id, "the inter-node write is attempted exactly once per destination: no function of the module installs or calls a gRPC retry interceptor (the remote ScheduleMessage appends to the peer's log and is not idempotent: a retry after a lost reply or a timeout delivers the publish twice) — positive control: the module's gRPC dial options are found", "E11 who-may-call over the whole module", 1)
+	nDial, bad := 0, ""
+	for _, f := range c.P.ModFuncs() {
+		for _, cl := range core.CallsIn(f) {
+			if cl.Obj == nil || cl.Obj.Pkg() == nil {
+				continue
+			}
+			pp := cl.Obj.Pkg().Path()
+			if pp == "google.golang.org/grpc" && (cl.Obj.Name() == "WithUnaryInterceptor" || cl.Obj.Name() == "Dial" || cl.Obj.Name() == "DialContext" || cl.Obj.Name() == "WithInsecure" || cl.Obj.Name() == "WithTransportCredentials") {
+				nDial++
+				c.R.Fn(c.fname(f))
+			}
+			if strings.Contains(pp, "grpc") && (strings.HasSuffix(pp, "/retry") || strings.Contains(strings.ToLower(cl.Obj.Name()), "retry")) {
+				bad = "a gRPC retry facility is used at " + c.whereI(cl.Instr) + " (" + pp + "." + cl.Obj.Name() + "): an inter-node write whose answer is lost or late is repeated, and the peer appends the publish twice"
+			}
+		}
+	}
+	ru.Check(bad == "" && nDial > 0, "gRPC client options of the module", "-", fmt.Sprintf("%d dial option call(s), no retry interceptor", nDial), bad+map[bool]string{true: "", false: " no gRPC dial option found in the module"}[nDial > 0])
+}
+
 func (c *Ctx) ruleSubscriptionPeer(id string) {
 	ru := c.R.Rule(id, "SubscriptionsState.CreateFrom records the subscription under the peer it is given: the Peer of the entry stored and broadcast derives from the peer parameter (a subscription attributed to the wrong node sends matching publishes to a log whose node does not host the session; the hosting node never receives them)", "E3 provenance of the stored entry's Peer field", 1)
 	cf := c.implOf(ru, "wasp/distributed", "SubscriptionsState", "CreateFrom")
@@ -645,4 +669,99 @@ func (c *Ctx) ruleSubscriptionPeer(id string) {
 		}
 	}
 	ru.Check(bad == "" && n > 0, "Peer of the entry created by "+c.fname(cf), c.whereF(cf), "taken from the peer parameter", bad+map[bool]string{true: "", false: "no Subscription literal with a Peer is built"}[n > 0 || bad != ""])
+}
+
+// ruleKeepAliveWidth implements C11-R10: the keep-alive a client announces (0…65535 s) is kept at a width that holds it:
+// no conversion of a value derived from Connect.KeepaliveTimer to a narrower integer type. A value that wraps negative
+// arms a deadline in the past: the session is ended right after CONNECT although the client is within its keep-alive.
+func (c *Ctx) ruleKeepAliveWidth(id string) {
+	ru := c.R.Rule(id, "the keep-alive interval taken from CONNECT is never converted to a narrower integer type on its way to the deadline arithmetic (65535 stored in 16 signed bits is -1: the deadline armed from it lies in the past and the session ends at once, for no cause the client gave)", "E3 provenance of integer conversions to the CONNECT field (positive control: reads of the field counted)", 1)
+	isKA := func(v ssa.Value) bool {
+		switch x := v.(type) {
+		case *ssa.FieldAddr:
+			return fieldNameOf(x.X.Type(), x.Field) == "KeepaliveTimer"
+		case *ssa.Field:
+			return fieldNameOf(x.X.Type(), x.Field) == "KeepaliveTimer"
+		}
+		return false
+	}
+	size := func(t types.Type) int64 {
+		b, ok := t.Underlying().(*types.Basic)
+		if !ok || b.Info()&types.IsInteger == 0 {
+			return 0
+		}
+		switch b.Kind() {
+		case types.Int8, types.Uint8:
+			return 1
+		case types.Int16, types.Uint16:
+			return 2
+		case types.Int32, types.Uint32:
+			return 4
+		}
+		return 8
+	}
+	nReads, bad := 0, ""
+	for _, f := range c.P.ModFuncs() {
+		if c.P.IsGenerated(f) {
+			continue
+		}
+		for _, b := range f.Blocks {
+			for _, in := range b.Instrs {
+				if v, ok := in.(ssa.Value); ok && isKA(v) {
+					nReads++
+					c.R.Fn(c.fname(f))
+				}
+				cv, ok := in.(*ssa.Convert)
+				if !ok {
+					continue
+				}
+				from, to := size(cv.X.Type()), size(cv.Type())
+				if from == 0 || to == 0 || to >= from {
+					continue
+				}
+				if depReaches(cv.X, isKA) {
+					bad = fmt.Sprintf("the keep-alive is narrowed from %d to %d bytes at %s", from, to, c.whereI(cv))
+				}
+			}
+		}
+	}
+	ru.Check(bad == "" && nReads > 0, "integer conversions of the CONNECT keep-alive", "-", fmt.Sprintf("%d read(s) of Connect.KeepaliveTimer, never narrowed", nReads), bad+map[bool]string{true: "", false: " the CONNECT keep-alive field is never read"}[nReads > 0])
+}
+
+// ruleHandOverHasNoDeadline implements C15-R8 (= C02-R11): every call of Writer.Schedule reachable from the consume
+// callback receives a context that is not derived by context.WithTimeout / WithDeadline. The writer's Schedule gives
+// up silently when its context ends, and the scheduler reports success regardless: with a deadline of its own the
+// hand-over of a message can be abandoned while its offset is persisted as consumed.
+func (c *Ctx) ruleHandOverHasNoDeadline(id string) {
+	ru := c.R.Rule(id, "the context handed to Writer.Schedule is the consumer's own: it does not come out of context.WithTimeout or context.WithDeadline (Schedule waits for room in the writer's queue and returns without a word when its context ends; the callback still reports success, the offset is persisted, and the message that was not queued is never delivered)", "E3 provenance of the context argument at every Writer.Schedule call site of the module", 1)
+	ws := c.im(ru, "wasp", "Writer", "Schedule")
+	if ws == nil {
+		return
+	}
+	n := 0
+	for _, f := range c.P.ModFuncs() {
+		if c.P.IsGenerated(f) {
+			continue
+		}
+		for _, cl := range core.CallsTo(f, ws) {
+			if len(cl.Args()) == 0 {
+				continue
+			}
+			n++
+			c.R.Fn(c.fname(f))
+			bad := ""
+			depReaches(cl.Args()[0], func(v ssa.Value) bool {
+				cv, ok := v.(*ssa.Call)
+				if !ok {
+					return false
+				}
+				if g := cv.Call.StaticCallee(); g != nil && g.Pkg != nil && g.Pkg.Pkg.Path() == "context" && (g.Name() == "WithTimeout" || g.Name() == "WithDeadline") {
+					bad = "the context passed at " + c.whereI(cl.Instr) + " comes from context." + g.Name()
+				}
+				return false
+			})
+			ru.Check(bad == "", "context of the hand-over in "+c.fname(f), c.whereI(cl.Instr), "no deadline of its own", bad)
+		}
+	}
+	ru.Anchor(n > 0, "a call of Writer.Schedule in the module")
 }
